@@ -37,6 +37,25 @@ def verifyDim2 (guard : Lvl → RawPk → RawSig → Bool) (checks : Bool) (K : 
   (!checks || ((decide (s.trl ≤ 0) || o.kerOk) && o.ordAll && o.split)) &&
   challEqDim2 s o.h
 
+/-- the same decision with an explicit mask of which of the six kernel-order tests are performed (T1.P1, T2.P1, T1m2.P1,
+    T1.P2, T2.P2, T1m2.P2) — used to state what a verifier lacking one test would accept -/
+structure OrderMask where
+  t1p1 : Bool
+  t2p1 : Bool
+  t12p1 : Bool
+  t1p2 : Bool
+  t2p2 : Bool
+  t12p2 : Bool
+
+def OrderMask.all : OrderMask := ⟨true, true, true, true, true, true⟩
+
+def verifyDim2Masked (guard : Lvl → RawPk → RawSig → Bool) (mk : OrderMask) (K : Lvl) (pk : RawPk) (s : RawSig)
+    (o : OracleDim2) : Bool :=
+  guard K pk s && (decide (s.trl ≤ 0) || o.kerOk) &&
+  (!mk.t1p1 || o.t1p1) && (!mk.t2p1 || o.t2p1) && (!mk.t12p1 || o.t12p1) &&
+  (!mk.t1p2 || o.t1p2) && (!mk.t2p2 || o.t2p2) && (!mk.t12p2 || o.t12p2) &&
+  o.split && challEqDim2 s o.h
+
 /-- stage at which the C function returns (observable through the taps): 0 guard, 1 small-chain kernel order,
     2 kernel point orders, 3 chain did not split, 4 final comparison -/
 def stageDim2 (guard : Lvl → RawPk → RawSig → Bool) (checks : Bool) (K : Lvl) (pk : RawPk) (s : RawSig)
